@@ -239,6 +239,7 @@ PROPS = {
 }
 
 LIMITS = {"quick": 8000, "thorough": 130000}
+MULTI_JUDGE = {"C02": ["M02_Order", "M02_Text"], "C07": ["M07_DocTop", "M07_DocBottom"], "C08": ["M08_RightEdge", "M08_Proportional", "M08_HeaderAligned"]}
 
 
 def _depth(consts):
@@ -379,6 +380,38 @@ def run(pid, tier, seed, replay=None):
                 ctx.model_drift("scenario %d: first difference at event %d: predicted %s, observed %s; cfg=%s"
                                 % (r["id"], r["drift"]["at"], r["drift"]["pred"], r["drift"]["obs"], json.dumps(sc["c"], sort_keys=True)))
         ctx.extra["conformance"] = {"compared_with_model_prediction": npred, "drift": ndrift}
+        if pid in MULTI_JUDGE:
+            # multi-section documents: the clauses of this property that the statement extends to them
+            import multisec
+            mconsts = dict(MaxSec=3 if tier == "thorough" else 2, RowSet={0, 1, 3}, ColSet={1, 2, 3}, HdrSet={"explicit", "none"},
+                           FootSet={"none", "table", "para"} if tier == "thorough" else {"none", "table"}, BoolSet={False, True}, NrowSet={3, 40})
+            mgot = family.generate(ctx, work, "MultiSec", mconsts, "multisec")
+            if pid == "C07":
+                # the border clauses speak about tables with rows: sections without rows are left to C01/C02
+                mgot = [g for g in mgot if all(sec["n"] > 0 for sec in g["secs"])]
+            mitems = [{"id": k, "secs": g["secs"], "opts": g["opts"], "pred": g["out"]} for k, g in enumerate(mgot)]
+            if tier == "quick" and len(mitems) > 1500:
+                mitems = mitems[::max(1, len(mitems) // 1500)]
+                for k, it in enumerate(mitems):
+                    it["id"] = k
+            mrecs = pmap(multisec.run_one, mitems, chunk=8)
+            okm = [r for r in mrecs if r["outcome"] == "ok"]
+            mv = family.validate(ctx, work, "MultiTrace", [{"id": r["id"], "c": r["c"], "ev": r["ev"]} for r in okm], MULTI_JUDGE[pid], name="multi")
+            for r in mrecs:
+                ctx.note_case("multi" + json.dumps(r["cfg"], sort_keys=True), True)
+                if r["outcome"] != "ok":
+                    ctx.violation("multi-section encode failed: %s" % r["outcome"], {"scenario": {"multi": r["cfg"]}})
+                    continue
+                by = {}
+                for b in mv.get(r["id"], []):
+                    by.setdefault(b["cl"], []).append(b["at"])
+                for cl, ats in by.items():
+                    at = min(ats)
+                    ctx.violation("%s fails at table row %d of a multi-section document: %s" % (cl, at, json.dumps(r["ev"][at - 1]) if at <= len(r["ev"]) else "end"),
+                                  {"clause": cl, "at": at, "scenario": {"multi": r["cfg"]}, "rows": r["ev"][:30]})
+                if "drift" in r:
+                    ctx.model_drift("multi-section %s: %s" % (json.dumps(r["cfg"]), r["drift"]))
+            ctx.extra["multi_section_documents"] = len(mrecs)
         if pid == "C06":
             # figure documents with 1..n figures: captions per placement option, and every page after
             # the first begins with a break restating the geometry (spec/Figure.tla, spec/FigTrace.tla)
@@ -413,6 +446,26 @@ def run(pid, tier, seed, replay=None):
 def _replay(ctx, work, spec, path):
     with open(path) as f:
         rp = json.load(f)
+    if "multi" in rp["scenario"]:
+        import multisec
+        r = multisec.run_one({"id": 0, "secs": rp["scenario"]["multi"]["secs"], "opts": rp["scenario"]["multi"]["opts"]})
+        print("outcome:", r["outcome"])
+        if r["outcome"] != "ok":
+            ctx.violation("multi-section encode failed: %s" % r["outcome"], {"scenario": rp["scenario"]})
+        else:
+            mv = family.validate(ctx, work, "MultiTrace", [{"id": 0, "c": r["c"], "ev": r["ev"]}], MULTI_JUDGE[ctx.pid], name="multi")
+            for b in mv.get(0, []):
+                ctx.violation("%s fails at table row %d" % (b["cl"], b["at"]), {"scenario": rp["scenario"]})
+        ctx.note_case("replay", True); ctx.note_case("replay2", True); ctx.sample({"replayed": path}); ctx.rule = "replay of one recorded scenario"
+        return ctx.finish()
+    if "c" in rp["scenario"] and "kinds" in rp["scenario"]["c"] and "strat" not in rp["scenario"]["c"]:
+        import check_figure, figure16
+        sc = rp["scenario"]
+        rec = figure16.run_one({"id": 0, "c": sc["c"], "seed": sc["seed"], "sizes": sc.get("sizes") or check_figure.SIZES["quick"]})
+        rec["seed"], rec["sizes"] = sc["seed"], sc.get("sizes")
+        check_figure._judge(ctx, work, [rec], ["C06_FigBreak", "C16_Captions"])
+        ctx.note_case("replay", True); ctx.note_case("replay2", True); ctx.sample({"replayed": path}); ctx.rule = "replay of one recorded scenario"
+        return ctx.finish()
     sc = {"id": 0, "c": rp["scenario"]["c"], "o": rp["scenario"].get("o") or {}, "pred": None}
     rec = pipeline.run_one(sc)
     print("outcome:", rec["outcome"])
